@@ -101,14 +101,13 @@ theorem gcore_closeTail (cfg : Cfg) (s : St) (t : Tid) (c : Cont) : gcore (close
 theorem gcore_suspendOn (s : St) (t x : Tid) (pc : Nat) (c : Cont) : gcore (suspendOn s t x pc c) = gcore s :=
   gcore_cancelTask s x
 
-theorem gcore_execClose (cfg : Cfg) (t : Tid) (c : Cont) (fuel pc : Nat) (s : St) :
-    gcore (execClose cfg s t c fuel pc) = gcore s := by
-  refine execClose_rule cfg t c (fun s' => gcore s' = gcore s) (fun s' => gcore s' = gcore s) ?_ ?_ ?_ ?_ ?_ fuel pc s rfl
+theorem gcore_execClose (cfg : Cfg) (t : Tid) (c : Cont) (pc : Nat) (s : St) :
+    gcore (execClose cfg s t c pc) = gcore s := by
+  refine execClose_rule cfg t c (fun s' => gcore s' = gcore s) (fun s' => gcore s' = gcore s) ?_ ?_ ?_ ?_ pc s rfl
   · intro s' h; exact h
   · intro s' h; exact h
   · intro s' x pc' h _ _ _; rw [gcore_suspendOn]; exact h
   · intro s' h; rw [gcore_closeTail]; exact h
-  · intro s' h; exact h
 
 theorem gcore_enterClose (cfg : Cfg) (s : St) (t : Tid) (c : Cont) : gcore (enterClose cfg s t c) = gcore s := by
   unfold enterClose
